@@ -722,7 +722,7 @@ class Gen:
             n = self.coll_size(depth)
             out = [self.datum(t["items"], depth + 1, hints, omit) for _ in range(n)]
             it = self.resolve(t["items"])
-            if self.typed_arrays and out and it["k"] == "prim" and "lt" not in it and r.random() < 0.15:
+            if self.typed_arrays and out and it["k"] == "prim" and "lt" not in it and r.random() < 0.4:
                 # a typed array (array.array) is a sequence like any other; its item width need not be the schema's
                 try:
                     if it["name"] in ("int", "long") and all(type(x) is int for x in out):
